@@ -285,3 +285,55 @@ def check(c):
             import shutil
             shutil.rmtree(d, ignore_errors=True)
     return out
+
+
+# ------------------------------------------------------------------ coverage-guided second driver (thorough tier)
+
+def extra(tier, seed):
+    """atheris campaigns (tokens decoder with an empty corpus; raw decoder seeded with the example scripts)."""
+    import glob
+    import json
+    import shutil
+    import subprocess
+    import sys
+    if tier == "quick" and not os.environ.get("BBV_ATHERIS"):
+        return {"buckets": {}, "evaluations": 0, "coverage": {"atheris": "thorough tier only"}}
+    try:
+        import atheris  # noqa
+    except Exception as e:
+        return {"buckets": {}, "evaluations": 0, "coverage": {"atheris": "not importable (%s): run ./setup.sh" % type(e).__name__}}
+    runs = int(os.environ.get("BBV_ATHERIS_RUNS", "40000" if tier != "quick" else "4000"))
+    work = tempfile.mkdtemp(prefix="bbv-c10-atheris-")
+    procs = []
+    try:
+        for i in range(8 if tier != "quick" else 2):
+            mode = "tokens" if i % 2 == 0 else "raw"
+            corpus = os.path.join(work, "corpus%d" % i)
+            os.makedirs(corpus)
+            if mode == "raw":
+                for f in glob.glob(os.path.join(ref.REPO, "examples", "*.xbb")):
+                    shutil.copy(f, corpus)
+            findings = os.path.join(work, "findings%d.jsonl" % i)
+            cmd = [sys.executable, "-W", "ignore", "-m", "bbv.fuzz.atheris_c10", mode, findings, "-runs=%d" % runs,
+                   "-seed=%d" % (seed * 100 + i + 1), "-max_len=%d" % (256 if mode == "tokens" else 400), corpus]
+            procs.append((mode, findings, subprocess.Popen(cmd, stdout=subprocess.PIPE, stderr=subprocess.STDOUT, text=True)))
+        buckets = {}
+        total = 0
+        notes = []
+        for mode, findings, pr in procs:
+            so, _ = pr.communicate()
+            m = re.search(r"Done (\d+) runs", so)
+            total += int(m.group(1)) if m else 0
+            if pr.returncode != 0:
+                notes.append("%s campaign exit %s: %s" % (mode, pr.returncode, so[-300:]))
+            if os.path.exists(findings):
+                for line in open(findings, encoding="utf-8"):
+                    d = json.loads(line)
+                    b = d["bucket"]
+                    if b not in buckets or len(d["text"]) < buckets[b]["size"]:
+                        buckets[b] = {"detail": d["detail"], "case": {"kind": "atheris:" + mode, "text": d["text"]}, "size": len(d["text"])}
+        return {"buckets": buckets, "evaluations": total,
+                "coverage": {"atheris_executions": total, "atheris_campaigns": len(procs), "atheris_runs_per_campaign": runs,
+                             "atheris_notes": notes}}
+    finally:
+        shutil.rmtree(work, ignore_errors=True)
